@@ -1,6 +1,8 @@
 package core
 
 import (
+	"fmt"
+
 	schema "github.com/jsightapi/jsight-schema-core"
 	"github.com/jsightapi/jsight-schema-core/fs"
 
@@ -152,7 +154,17 @@ func NewJApiCore(file *fs.File, oo ...Option) *JApiCore {
 	return core
 }
 
-func (core *JApiCore) BuildCatalog() *jerr.JApiError {
+func (core *JApiCore) BuildCatalog() (je *jerr.JApiError) {
+	defer func() {
+		// The schema library reports some faults of a document by panicking (an
+		// index out of range in its enum reader, an empty type name in a Path
+		// schema). The build must not take the process down with it: whatever
+		// was not refused before is an error of the project, located at the
+		// beginning of the file which was being read.
+		if r := recover(); r != nil {
+			je = jerr.NewJApiError(fmt.Sprintf("%s: %v", jerr.RuntimeFailure, r), core.scanner.File(), 0)
+		}
+	}()
 	return core.processJApiProject()
 }
 
